@@ -71,6 +71,25 @@ def _word_order(ctx, cm_, cls, ordering, nwords=3, busword=8):
     return order, isinstance(reg, list) and len(reg) == len(csrs) and all(a is b for a, b in zip(reg, csrs))
 
 
+def storage_word_slices(ctx, rid, fxs=None):
+    """CSRStorage: bus word i reads and (non-atomic) writes storage[i*busword : i*busword + nbits], nbits = min(size - i*busword,
+    busword), each word under its own strobe.  Shared with C15: EventManager.enable is a CSRStorage, bit i enables source i."""
+    if fxs is None:
+        from ..fx import FX
+        fxs = FX(ctx, CSR, cls="CSRStorage", entries=("__init__", "do_finalize"))
+    rd = fxs.find(domain="comb", target="sc.w")
+    ok = len(rd) == 1 and rd[0].v == "self.storage[i * busword:i * busword + nbits]"
+    ctx.ob(rid, CSR, "CSRStorage.do_finalize", "word i reads storage[i*busword : +nbits]", ok, "" if ok else f"{[a.v for a in rd]}")
+    nb = fxs.localdefs.get("nbits")
+    nbt = norm(nb) if nb is not None else None
+    ok = nbt in ("min(size - i * busword, busword)", "min(self.size - i * busword, busword)")
+    ctx.ob(rid, CSR, "CSRStorage.do_finalize", "nbits = min(size - i*busword, busword)", ok, "" if ok else f"nbits = {nbt}")
+    plain = [a for a in fxs.find(domain="sync") if a.t == "self.storage[i * busword:i * busword + nbits]"]
+    ok = len(plain) == 1 and plain[0].v == "sc.r" and q.EQ(plain[0], B.A("sc.re"))
+    ctx.ob(rid, CSR, "CSRStorage.do_finalize", "non-atomic: word i written through the same slice under its own strobe", ok,
+           "" if ok else f"{[(a.t, a.v, a.gtext()) for a in fxs.find(domain='sync')]}", plain[0].line if plain else 0)
+
+
 def status_write_latch(ctx, rid, fxt=None):
     """Writable CSRStatus (shared with C15: EventManager.pending): `r` takes the bus data only in the cycle of the write strobe and
     `re` is that strobe one cycle later -- `re & r[i]` then means "a one was written to bit i".  Without the strobe on the latch `r`
@@ -221,17 +240,7 @@ def run(ctx):
     # ================================================================ R2 compound registers
     fxs = FX(ctx, CSR, cls="CSRStorage", entries=("__init__", "do_finalize"))
     fail_closed(ctx, fxs, "CSRStorage")
-    rd = fxs.find(domain="comb", target="sc.w")
-    ok = len(rd) == 1 and rd[0].v == "self.storage[i * busword:i * busword + nbits]"
-    ctx.ob("R2", CSR, "CSRStorage.do_finalize", "word i reads storage[i*busword : +nbits]", ok, "" if ok else f"{[a.v for a in rd]}")
-    nb = fxs.localdefs.get("nbits")
-    nbt = norm(nb) if nb is not None else None
-    ok = nbt in ("min(size - i * busword, busword)", "min(self.size - i * busword, busword)")
-    ctx.ob("R2", CSR, "CSRStorage.do_finalize", "nbits = min(size - i*busword, busword)", ok, "" if ok else f"nbits = {nbt}")
-    plain = [a for a in fxs.find(domain="sync") if a.t == "self.storage[i * busword:i * busword + nbits]"]
-    ok = len(plain) == 1 and plain[0].v == "sc.r" and q.EQ(plain[0], B.A("sc.re"))
-    ctx.ob("R2", CSR, "CSRStorage.do_finalize", "non-atomic: word i written through the same slice under its own strobe", ok,
-           "" if ok else f"{[(a.t, a.v, a.gtext()) for a in fxs.find(domain='sync')]}", plain[0].line if plain else 0)
+    storage_word_slices(ctx, "R2", fxs)
     bs = [a for a in fxs.find(domain="sync") if a.t.startswith("backstore[")]
     ok = len(bs) == 1 and bs[0].t == "backstore[i * busword - busword:i * busword + nbits - busword]" and bs[0].v == "sc.r" and \
         q.EQ(bs[0], B.A("sc.re")) and _i_nonzero(bs[0].pyguards) is True
